@@ -15,6 +15,20 @@ pub struct Access {
 pub trait MmioHandler {
     fn read(&mut self, addr: usize, width: u8) -> u64;
     fn write(&mut self, addr: usize, width: u8, value: u64);
+    fn as_any(&mut self) -> &mut dyn std::any::Any;
+}
+
+/// Gives temporary access to the installed handler (e.g. to change device behaviour mid-run).
+pub fn with_handler<R>(f: impl FnOnce(&mut Box<dyn MmioHandler>) -> R) -> Option<R> {
+    let h = HANDLER.with(|c| c.borrow_mut().take());
+    match h {
+        Some(mut h) => {
+            let r = f(&mut h);
+            HANDLER.with(|c| *c.borrow_mut() = Some(h));
+            Some(r)
+        }
+        None => None,
+    }
 }
 
 thread_local! {
